@@ -155,6 +155,24 @@ CHECKS["C20"] = dict(
          "NOT claimed. Trusted: z3 QF_FP, proxy tracer, recording stub for Pillow.",
     design="4/C20", technique="shadow-valued tracing into z3 QF_FP; " + TECH_A)
 
+CHECKS["C09"] = dict(
+    text="The binding of formatting to cells decided on its kernels: the recycling algebra of BroadcastValue for every value / "
+         "table shape up to 4x4 (no aliasing on update), the border and cell emitters with the width symbolic, "
+         "TableAttributes._encode with recording constructors for scalar / per-column / full-matrix attributes of distinct "
+         "markers and a symbolic segment offset (14 text attributes, alignment, border style/width/colour per side), attribute "
+         "slicing on column removal, and the per-page attribute rows across a page break.",
+    note="Trusted: z3/CrossHair; recording constructors standing for the pydantic Cell/Row/Border/TextContent; FakeFrame. "
+         "Outside: tables larger than the stated shapes; composition of segment offsets with page re-basing.",
+    design="4/C09", technique=TECH_A)
+CHECKS["C13"] = dict(
+    text="The polars expression kernels of group_by run on a pure-Python polars model whose cells are symbolic one-character "
+         "strings or null: the suppression rule for 1-3 levels, page-start restoration, the page starts handed to it, and the "
+         "contiguity check are decided for every key sequence of the stated length; the model is validated against real polars "
+         "on seeded random frames on every run.",
+    note="Trusted: vf.minipl (polars' documented null/Kleene semantics; differentially validated each run), z3/CrossHair. "
+         "Outside: more rows/levels than stated.",
+    design="4/C13", technique=TECH_A + " over a symbolic mini-frame model of polars expressions")
+
 NOT_APPLICABLE = {
     "C18": "file-system crash-point property: effects of pathlib/tempfile/shutil and an external converter are opaque to "
            "(and blocked under) symbolic execution; a model of the file system would verify the model, not the effects",
